@@ -101,3 +101,21 @@ add("C17", "exploration",
     "Ordered pairs of valid encodings per layer covering all branch combinations; every ordered pair of 12 commands x 6 first-command outcomes x {session-less, in-session} against a fresh connection.",
     "Accepted-but-invalid inputs are observations only.",
     "DESIGN.md 5/C17")
+
+add("C13", "fault_enumeration",
+    "wall-clock overshoot monitor over real UDP with a scheduler-lateness canary + logical monitor of every attempt context's deadline at the in-memory transport",
+    "Five fault patterns from each of twelve steps of the blocking calls with three timeout:deadline ratios (quick: one third of the grid, rotating with the seed; thorough: all plus extra ratios), already-expired contexts, and the load-independent attempt-deadline invariants.",
+    "250 ms scheduling allowance; canary lateness > 100 ms makes a case inconclusive (repeated up to three times), never a violation.",
+    "DESIGN.md 5/C13")
+
+add("C18", "exploration",
+    "conservation monitor: prometheus.DefaultGatherer snapshot before/after every step of random histories vs a model fed from transport-level counts",
+    "Random histories (up to 60 steps) over dials, opens, commands with scripted outcomes, serialisation failures and closes; every bmc_* counter and gauge delta must equal the model's for every step.",
+    "Histories run one at a time in the process (vectors are process-global); only unambiguous outcomes are generated.",
+    "DESIGN.md 5/C18")
+
+add("C19", "exploration",
+    "Go race detector (binary built with -race, reports parsed and de-duplicated by library frames) + differential solo-vs-concurrent transcripts of results and BMC-side datagram logs",
+    "Rounds of 2..16 goroutines with independent connections (UDP and in-memory) and seeded random workloads, repeated; interleaving evidence = distinct worker-ID sequences over transport events.",
+    "Judges executed accesses under the schedules this run produced; non-reproducing transcript differences are inconclusive.",
+    "DESIGN.md 5/C19")
